@@ -158,6 +158,18 @@ func observe(sb align.SeqBag, al align.Alignment, probes []string) string {
 	return b.String()
 }
 
+// decNames decodes a list of names: percent-encoded, "/"-separated, "_" when empty.
+func decNames(s string) []string {
+	if s == "_" || s == "" {
+		return []string{}
+	}
+	out := []string{}
+	for _, n := range strings.Split(s, "/") {
+		out = append(out, pctDec(n))
+	}
+	return out
+}
+
 func parseFrac(s string) float64 {
 	f := strings.Split(s, "/")
 	if len(f) == 1 {
@@ -429,6 +441,49 @@ func (h *histState) step(op string) string {
 		return "ok"
 	case "revcomp":
 		return errs(h.sb.ReverseComplement())
+	case "mask", "maskocc", "maskuniq":
+		ref := pctDec(f[1])
+		if f[1] == "_" {
+			ref = ""
+		}
+		if ref != "" {
+			h.addProbe(ref)
+		}
+		if h.al == nil {
+			return "na"
+		}
+		unrep := func(s string) string {
+			s = pctDec(s)
+			if s == "_" {
+				return ""
+			}
+			return s
+		}
+		switch f[0] {
+		case "mask":
+			return errs(h.al.Mask(ref, atoi(f[2]), atoi(f[3]), unrep(f[4]), atob(f[5]), atob(f[6])))
+		case "maskocc":
+			return errs(h.al.MaskOccurences(ref, atoi(f[2]), unrep(f[3])))
+		}
+		return errs(h.al.MaskUnique(ref, unrep(f[2])))
+	case "diffwithfirst":
+		if h.al == nil {
+			return "na"
+		}
+		h.al.DiffWithFirst()
+		return "ok"
+	case "replacematch":
+		if h.al == nil {
+			return "na"
+		}
+		h.al.ReplaceMatchChars()
+		return "ok"
+	case "revcompseqs":
+		names := decNames(f[1])
+		for _, n := range names {
+			h.addProbe(n)
+		}
+		return errs(h.sb.ReverseComplementSequences(names...))
 	}
 	return "bad-op"
 }
